@@ -79,8 +79,11 @@ FALSY_MODEL_KINDS = {"dataclass": ["bool", "len"], "attrs": ["bool", "len"], "na
 
 
 class Gen:
-    def __init__(self, rng):
+    def __init__(self, rng, history=False):
         self.rng = rng
+        # history mode (Gen.history_case): the case is a *sequence* of requests on one retort; the converter
+        # signature is the one get_converter / convert build ((src, /) -> dst, no extra parameters)
+        self.history = history
         self.classes = []
         self.counter = 100
         self.fcounter = 0
@@ -93,6 +96,9 @@ class Gen:
         #           Decimal(0), empty containers, field-less models, models defining __bool__ / __len__
         self.deep = rng.random() < 0.45
         self.falsy = rng.random() < 0.45
+        #   light - (history mode only) the destination is mostly a copy of the source: few renamed / added fields,
+        #           so that a request *without* any recipe succeeds often and recipes are genuine overrides
+        self.light = history and rng.random() < 0.5
 
     # -- small helpers -------------------------------------------------------
     def fresh_int(self):
@@ -336,7 +342,7 @@ class Gen:
             ty = self.retype(f["ty"], src_by_id, dst_kind_pool, plan, path + [fid], lkind, marks)
             if lkind == "pydantic":
                 ty = self.untyped_leaves(ty)
-            if r < 0.30:
+            if r < (0.17 if self.light else 0.30):
                 new = rng.choice([n for n in FIELD_NAMES if n not in used and n != f["id"]] or [f["id"] + "2"])
                 edits.append(("rename", f["id"], new))
                 fid = new
@@ -359,7 +365,7 @@ class Gen:
             if kind in ("attrs", "pydantic") and self.chance(0.1) and not fid.startswith("_"):
                 nf["alias"] = fid + "_al"
             fields.append(nf)
-        for _ in range(rng.choice([0, 0, 1, 1, 2])):
+        for _ in range(rng.choice([0, 0, 0, 0, 1] if self.light else [0, 0, 1, 1, 2])):
             cand = [n for n in FIELD_NAMES if n not in used]
             if not cand:
                 break
@@ -408,6 +414,36 @@ class Gen:
             return {"p": "end", "stack": [{"p": "origin", "o": {"o": "cls", "c": src_cls["id"]}}, {"p": "name", "n": fid}]}
         return {"p": "names", "ns": [fid, "zz"]}
 
+    def overlap_provider(self, pl, by_id, params):
+        """a provider overlapping with whatever already feeds a field of the pair `pl` (exercises recipe order);
+        None: the draw is discarded"""
+        rng = self.rng
+        s, d = by_id[pl["src"]], by_id[pl["dst"]]
+        # a model without fields still takes part: the provider then names a field that does not exist
+        f = rng.choice(d["fields"] or [{"id": "zz", "ty": leaf(LEAF_ANY)}])
+        r = rng.random()
+        if r < 0.4:
+            sf = rng.choice(s["fields"] or [{"id": "zz", "ty": leaf(LEAF_ANY)}])
+            if f["ty"]["t"] == "opt" and sf["ty"]["t"] in ("iter", "dict") and sf["ty"] != f["ty"]["a"]:
+                return None       # UnionSubcaseCoercerProvider on same-origin generics is C14's business
+            return {"k": "link", "src": self.src_pred(s, sf["id"]), "dst": self.dst_pred(d, f["id"]),
+                    "coercer": self.fresh_f() if self.chance(0.2) and d["kind"] != "pydantic" else None}
+        if r < 0.5 and len(params) >= 2:
+            # a source predicate accepting several extra parameters: the rightmost one is taken
+            ps = rng.sample(params, 2)
+            return {"k": "link", "src": {"p": "or", "ps": [{"p": "from_param", "n": q["name"]} for q in ps]},
+                    "dst": self.dst_pred(d, f["id"]), "coercer": None}
+        if r < 0.6 and params:
+            p = rng.choice(params)
+            return {"k": "link", "src": {"p": "from_param", "n": p["name"]},
+                    "dst": self.dst_pred(d, f["id"]), "coercer": None}
+        if r < 0.85:
+            return {"k": "link_constant", "dst": self.dst_pred(d, f["id"]), "value": self.const_for(f, d)}
+        if r < 0.92:
+            return {"k": "link", "src": {"p": "origin", "o": {"o": "leaf", "n": rng.choice([LEAF_INT, LEAF_STR])}},
+                    "dst": self.dst_pred(d, f["id"]), "coercer": None}
+        return {"k": "link_constant", "dst": {"p": "any"}, "value": {"v": "none"}}
+
     # -- the whole case -------------------------------------------------------------
     def case(self):
         rng = self.rng
@@ -429,7 +465,7 @@ class Gen:
         used_names = set()
 
         def add_param(name, ty):
-            if name in used_names or len(params) >= 4:
+            if name in used_names or len(params) >= 4 or self.history:
                 return False
             used_names.add(name)
             p = {"name": name, "kind": "pos_or_kw", "ty": ty}
@@ -480,33 +516,9 @@ class Gen:
             add_param(rng.choice(PARAM_EXTRA_NAMES), self.leaf_type())
         # ---- overlapping providers to exercise recipe order
         for _ in range(rng.choice([0, 0, 1, 2, 3])):
-            pl = rng.choice(plan)
-            s, d = by_id[pl["src"]], by_id[pl["dst"]]
-            # a model without fields still takes part: the provider then names a field that does not exist
-            f = rng.choice(d["fields"] or [{"id": "zz", "ty": leaf(LEAF_ANY)}])
-            r = rng.random()
-            if r < 0.4:
-                sf = rng.choice(s["fields"] or [{"id": "zz", "ty": leaf(LEAF_ANY)}])
-                if f["ty"]["t"] == "opt" and sf["ty"]["t"] in ("iter", "dict") and sf["ty"] != f["ty"]["a"]:
-                    continue      # UnionSubcaseCoercerProvider on same-origin generics is C14's business
-                recipe.append({"k": "link", "src": self.src_pred(s, sf["id"]), "dst": self.dst_pred(d, f["id"]),
-                               "coercer": self.fresh_f() if self.chance(0.2) and d["kind"] != "pydantic" else None})
-            elif r < 0.5 and len(params) >= 2:
-                # a source predicate accepting several extra parameters: the rightmost one is taken
-                ps = rng.sample(params, 2)
-                recipe.append({"k": "link", "src": {"p": "or", "ps": [{"p": "from_param", "n": q["name"]} for q in ps]},
-                               "dst": self.dst_pred(d, f["id"]), "coercer": None})
-            elif r < 0.6 and params:
-                p = rng.choice(params)
-                recipe.append({"k": "link", "src": {"p": "from_param", "n": p["name"]},
-                               "dst": self.dst_pred(d, f["id"]), "coercer": None})
-            elif r < 0.85:
-                recipe.append({"k": "link_constant", "dst": self.dst_pred(d, f["id"]), "value": self.const_for(f, d)})
-            elif r < 0.92:
-                recipe.append({"k": "link", "src": {"p": "origin", "o": {"o": "leaf", "n": rng.choice([LEAF_INT, LEAF_STR])}},
-                               "dst": self.dst_pred(d, f["id"]), "coercer": None})
-            else:
-                recipe.append({"k": "link_constant", "dst": {"p": "any"}, "value": {"v": "none"}})
+            prov = self.overlap_provider(rng.choice(plan), by_id, params)
+            if prov is not None:
+                recipe.append(prov)
         # ---- policies
         for _ in range(rng.choice([0, 0, 0, 1, 2])):
             pl = rng.choice(plan)
@@ -539,7 +551,7 @@ class Gen:
                     p["default"] = dflt
                     seen_default = seen_default or p["kind"] != "kw_only"
             sig_params.append(p)
-        if self.chance(0.02):
+        if self.chance(0.02) and not self.history:
             pos = next((i for i, p in enumerate(sig_params) if p["kind"] == "kw_only"), len(sig_params))
             sig_params.insert(pos, {"name": "args", "kind": "var_pos", "ty": leaf(LEAF_ANY)})
         sig = {"params": sig_params, "ret": model_ty(top_dst["id"])}
@@ -577,7 +589,117 @@ class Gen:
         if case["api"] == "convert":
             case["fname"] = None
         case["profile"] = {"deep": self.deep, "falsy": self.falsy}
+        if self.history:
+            # the signature `_make_simple_converter` builds; the requests are drawn by history_case
+            sig_params[0]["kind"], sig_params[0]["name"] = "pos_only", "src"
+            self._plan, self._by_id, self._top_src = plan, by_id, top_src
+            case["profile"]["light"] = self.light
+            return case
         case["calls"] = [self.call(case, by_id) for _ in range(rng.choice([1, 2, 2, 3]))]
+        return case
+
+    # -- histories: several requests on one retort ----------------------------------------
+    def overlay(self):
+        """a per-call recipe overriding what the pair gets otherwise: one or two providers overlapping with the
+        links already in force (constant, link from another field, link with coercer, swap of two fields, policy)"""
+        rng = self.rng
+        plan, by_id = self._plan, self._by_id
+        out = []
+        top = next(p for p in plan if p["top"])
+        for _ in range(rng.choice([1, 1, 2])):
+            pl = top if self.chance(0.7) else rng.choice(plan)
+            s, d = by_id[pl["src"]], by_id[pl["dst"]]
+            common = [f["id"] for f in d["fields"] if any(sf["id"] == f["id"] for sf in s["fields"])]
+            r = rng.random()
+            if r < 0.2 and len(common) >= 2:
+                a, b = rng.sample(common, 2)          # the two fields exchange their sources
+                out.append({"k": "link", "src": self.src_pred(s, a), "dst": self.dst_pred(d, b), "coercer": None})
+                out.append({"k": "link", "src": self.src_pred(s, b), "dst": self.dst_pred(d, a), "coercer": None})
+            elif r < 0.3 and d["fields"]:
+                f = rng.choice(d["fields"])
+                out.append({"k": "policy", "pred": self.dst_pred(d, f["id"]) if self.chance(0.7) else None,
+                            "allowed": self.chance(0.5)})
+            else:
+                prov = self.overlap_provider(pl, by_id, [])
+                if prov is not None:
+                    out.append(prov)
+        return out
+
+    def history_case(self):
+        """one model pair, one retort (the module-level API = the global retort, or a ConversionRetort with part of
+        the recipe), and 2-6 operations on it: the same (src, dst, name) requested without a per-call recipe and
+        with different ones in every order, through get_converter / convert / impl_converter, on the retort and on
+        retorts extended from it"""
+        rng = self.rng
+        case = self.case()
+        full = case.pop("recipe")
+        for k in ("api", "fname", "split"):
+            case.pop(k, None)
+        sig = case.pop("sig")
+        src_ty, dst_ty = sig["params"][0]["ty"], sig["ret"]
+        by_id = self._by_id
+        mode = "global" if self.chance(0.4) else "retort"
+        if mode == "global":
+            base, own = [], full
+        else:
+            k = 0 if self.chance(0.5) else rng.randint(0, len(full))
+            base, own = full[k:], full[:k]       # the retort's providers / the ones given per call
+        pairs = [{"src": src_ty, "dst": dst_ty}]
+        if not self.pyd:
+            pairs.append({"src": src_ty, "dst": src_ty})      # copy conversion: always possible without a recipe
+        top_src = self._top_src
+        convertible = src_ty["t"] == "model" and top_src["kind"] != "typeddict" and top_src.get("generic") is None
+
+        def per_call(what):
+            if what == "plain":
+                return []
+            r = rng.random()
+            if r < 0.25 and own:
+                return copy.deepcopy(own)
+            if r < 0.75:
+                return self.overlay() + copy.deepcopy(own)
+            if r < 0.85 and own:
+                i = rng.randrange(len(own))
+                return copy.deepcopy(own[:i] + own[i + 1:])
+            return self.overlay()
+
+        def request(what, on, pair, api, name):
+            if api == "convert" and not (convertible and pair["dst"]["t"] == "model"):
+                api = "get"
+            st = {"op": api, "on": on, "recipe": per_call(what), "src": pair["src"], "dst": pair["dst"],
+                  "name": name if api != "convert" else None}
+            holder = {"sig": {"params": [{"name": "src", "kind": "pos_only", "ty": pair["src"]}], "ret": pair["dst"]},
+                      "api": "get_converter"}
+            st["calls"] = [self.call(holder, by_id) for _ in range(rng.choice([1, 1, 2]))]
+            return st
+
+        def draw_api():
+            return rng.choice(["get", "get", "get", "convert", "convert", "impl"])
+
+        steps = []
+        n_retorts = 1
+        if self.chance(0.65):
+            # the systematic part: one key requested twice on the same retort
+            first, second = rng.choice([("plain", "recipe"), ("plain", "recipe"), ("recipe", "plain"),
+                                        ("recipe", "recipe"), ("plain", "plain")])
+            pair = pairs[0] if self.chance(0.75) else rng.choice(pairs)
+            name = rng.choice(FUNC_NAMES)
+            a1, a2 = rng.choice([("get", "get"), ("get", "get"), ("get", "convert"), ("convert", "get"),
+                                 ("convert", "convert")])
+            if name is not None:
+                a1 = a2 = "get"               # convert() has no name argument
+            steps.append(request(first, 0, pair, a1, name))
+            steps.append(request(second, 0, pair, a2, name))
+        for _ in range(rng.randint(0 if steps else 2, 4)):
+            if mode == "retort" and self.chance(0.2):
+                steps.append({"op": "extend", "on": rng.randrange(n_retorts), "recipe": self.overlay()})
+                n_retorts += 1
+                continue
+            on = 0 if self.chance(0.4) else rng.randrange(n_retorts)
+            pair = pairs[0] if self.chance(0.7) else rng.choice(pairs)
+            steps.append(request("plain" if self.chance(0.4) else "recipe", on, pair, draw_api(),
+                                 rng.choice(FUNC_NAMES) if self.chance(0.3) else None))
+        case["history"] = {"mode": mode, "base": base, "steps": steps}
         return case
 
     def ordered_classes(self):
@@ -717,6 +839,19 @@ class Gen:
         elif self.chance(0.03):
             kwargs.append(["nosuch", atom_json(1)])
         return {"args": args, "kwargs": kwargs}
+
+
+def gen_history(rng):
+    """a generated history case (see Gen.history_case); same discarding rule as gen_case"""
+    from harness.props.c13_world import Universe
+    for _ in range(50):
+        case = Gen(rng, history=True).history_case()
+        try:
+            Universe(case["classes"])
+        except Exception:  # noqa: BLE001, S112
+            continue
+        return case
+    raise RuntimeError("generator keeps producing classes that cannot be materialised")
 
 
 def gen_case(rng):
